@@ -41,9 +41,9 @@ RULE = (
     "random documents (1-3 pages; 2-7 blocks per page / 1-4 per form: paragraphs with Td/T*/TJ, stacked and rotated glyphs, "
     "rect/line/curve/multi-subpath paths, form XObjects nested <=3, image XObjects, inline images) with 1-3 fonts per scope "
     "(simple + ToUnicode, plain WinAnsi, standard-14, descriptor-less, Type0 Identity-H/V + ToUnicode); ToUnicode targets and "
-    "font/XObject names drawn from XML-special strings and a per-document character profile (ascii, latin1, cp1252, sjis, any incl. "
+    "font/XObject names drawn from XML-special strings and a per-document character profile (ascii, latin1, cp1252, sjis, jis, kr, zh, any incl. "
     "non-BMP), optionally control characters, tab/CR/LF, U+FFFE/FFFF, names of 1500-6000 characters, empty names, non-UTF-8 names; "
-    "each document x {laparams random, None} x {text, xml} x {text sink, binary sink with 2-3 codecs that round-trip the output; "
+    "each document x {laparams random, None} x {text, xml} x {text sink, binary sink with 2-3 codecs that round-trip the output, one of them an escape-sequence codec (iso2022_jp/_jp_2/_kr, hz) whenever one is able and the output is not pure ASCII; "
     "85% StringIO/BytesIO, 15% real files} x strip_control, plus extract_text (given and default laparams) and "
     "page_numbers/maxpages. One evaluation = one (document, configuration) comparison; "
     "distinct = distinct (pdf, configuration); non-trivial = the selected pages show >=1 glyph and the document carries a "
@@ -61,7 +61,10 @@ SHARD_TIMEOUT = {"quick": 600, "thorough": 5400}
 
 PLACEHOLDER = "\ue000"
 CODECS_ALWAYS = ["utf-8", "utf-16", "utf-32", "utf-16-le", "utf-16-be", "utf-32-be", "gb18030", "utf-8-sig"]
-CODECS_IF_ABLE = ["latin-1", "cp1252", "shift_jis", "ascii", "euc_jp", "iso8859-15", "cp932"]
+CODECS_IF_ABLE = ["latin-1", "cp1252", "shift_jis", "ascii", "euc_jp", "iso8859-15", "cp932", "euc_kr", "gb2312",
+                  "iso2022_jp", "iso2022_jp_2", "iso2022_kr", "hz", "utf-7"]
+# codecs with shift states / escape sequences: what a piece encodes to depends on what was written before it
+ESCAPE_CODECS = ["iso2022_jp", "iso2022_jp_2", "iso2022_kr", "hz"]
 EXPAT_BYTES = {"utf-8", "utf-16", "latin-1", "cp1252", "ascii", "iso8859-15"}     # encodings expat can be fed directly
 
 
@@ -69,20 +72,20 @@ def minimums(tier: str) -> Dict[str, int]:
     if tier == "quick":
         return {"evaluations": 4000, "distinct": 3500, "docs": 500, "text_runs": 1800, "xml_runs": 1500, "xml_elements_compared": 150000,
                 "xml_attrs_compared": 400000, "xml_chardata_compared": 100000, "xml_wellformed_demanded": 1000, "xml_marked_runs": 200,
-                "xml_bytes_parsed": 200, "binary_text_runs": 900, "binary_xml_runs": 600, "file_sink_runs": 300,
+                "xml_bytes_parsed": 200, "binary_text_runs": 900, "binary_xml_runs": 600, "file_sink_runs": 300, "escape_codec_text_runs": 60, "escape_codec_xml_runs": 60,
                 "reference_trees_compared": 3500, "text_box_newlines": 10000, "text_formfeeds": 1000,
                 "docs_xmlspecial_text": 200, "docs_xmlspecial_fontname": 150, "docs_xmlspecial_figname": 80, "docs_nonbmp": 40,
                 "docs_ctrl_text": 60, "docs_ctrl_name": 40, "docs_nonchar_text": 8, "docs_nested_figures": 40, "docs_images": 80,
                 "docs_long_name": 8, "docs_ws_name": 15, "docs_page_selection": 40, "laparams_none_runs": 300, "vertical_boxes": 5,
-                "layout_elements": 200, "seen:xml_tags": 12, "seen:codecs": 20}
+                "layout_elements": 200, "seen:xml_tags": 12, "seen:codecs": 28}
     return {"evaluations": 100000, "distinct": 85000, "docs": 12800, "text_runs": 50000, "xml_runs": 40000, "xml_elements_compared": 4000000,
             "xml_attrs_compared": 10000000, "xml_chardata_compared": 2500000, "xml_wellformed_demanded": 30000, "xml_marked_runs": 6000,
-            "xml_bytes_parsed": 6000, "binary_text_runs": 25000, "binary_xml_runs": 18000, "file_sink_runs": 9000,
+            "xml_bytes_parsed": 6000, "binary_text_runs": 25000, "binary_xml_runs": 18000, "file_sink_runs": 9000, "escape_codec_text_runs": 1800, "escape_codec_xml_runs": 1800,
             "reference_trees_compared": 85000, "text_box_newlines": 300000, "text_formfeeds": 30000,
             "docs_xmlspecial_text": 6000, "docs_xmlspecial_fontname": 4500, "docs_xmlspecial_figname": 2400, "docs_nonbmp": 1200,
             "docs_ctrl_text": 1800, "docs_ctrl_name": 1200, "docs_nonchar_text": 300, "docs_nested_figures": 1200, "docs_images": 2400,
             "docs_long_name": 250, "docs_ws_name": 500, "docs_page_selection": 1200, "laparams_none_runs": 9000, "vertical_boxes": 200,
-            "layout_elements": 6000, "seen:xml_tags": 12, "seen:codecs": 30}
+            "layout_elements": 6000, "seen:xml_tags": 12, "seen:codecs": 40}
 
 
 def shards(tier: str, seed: int) -> List[Dict[str, Any]]:
@@ -519,19 +522,31 @@ def classify_binary(kind: str, codec: str, raw: bytes, text: str) -> Tuple[str, 
     return "%s_binary_mismatch:%s" % (kind, k), "codec=%s: %s" % (codec, d)
 
 
-def classify_binary_xml(codec: str, raw: bytes, dec: Optional[str]) -> Tuple[str, str]:
+def classify_binary_xml(codec: str, raw: bytes, dec: Optional[str], sxml: str) -> Tuple[str, str]:
     """The binary XML output does not decode, or does not start with an XML declaration."""
     if dec is not None and HEADER.match(dec.replace("\ufeff", "")) is not None:
         return "binary_bom_per_write", "codec=%s: U+FEFF before the XML declaration: output starts %r" % (codec, raw[:40])
     if codecs.lookup(codec).name != "utf-8":
         try:
-            if HEADER.match(raw.decode("utf-8")):
-                return "xml_binary_codec_ignored", "codec=%s: the bytes are UTF-8" % codec
+            u = raw.decode("utf-8")
+            if HEADER.match(u) and HEADER.sub("", u) == HEADER.sub("", sxml):
+                return "xml_binary_codec_ignored", "codec=%s: the bytes are the UTF-8 encoding of the document" % codec
         except UnicodeError:
             pass
     if dec is None:
         return "xml_binary_undecodable", "codec=%s: bytes start %r" % (codec, raw[:80])
     return "xml_header", "codec=%s: binary output starts %r" % (codec, dec[:60])
+
+
+def choose_codecs(rng: Any, text: str, k: int) -> List[str]:
+    """k codecs able to encode the text; an escape-sequence codec is always among them when one is able and the
+    text is not pure ASCII (so that shift states actually change between the pieces the converter writes)."""
+    able = able_codecs(text)
+    chosen = rng.sample(able, min(k, len(able)))
+    esc = [c for c in ESCAPE_CODECS if c in able]
+    if esc and not text.isascii() and not any(c in ESCAPE_CODECS for c in chosen):
+        chosen[-1] = rng.choice(esc)
+    return chosen
 
 
 def able_codecs(text: str) -> List[str]:
@@ -788,9 +803,7 @@ def check_case(case: Dict[str, Any], rec: Any = None, only: Optional[str] = None
                 _ = eval_text("extract_text/default", r[0], r[1]) and plumbing("extract_text/default", {}, r[1], True)
         # binary sinks
         if text_main is not None:
-            able = able_codecs(text_main)
-            chosen = rng.sample(able, min(3, len(able)))
-            for codec in chosen:
+            for codec in choose_codecs(rng, text_main, 3):
                 fs = rng.random() < 0.15
                 label = "text/%s/%s" % ("binaryfile" if fs else "BytesIO", codec)
                 count("file_sink_runs", int(fs))
@@ -798,6 +811,8 @@ def check_case(case: Dict[str, Any], rec: Any = None, only: Optional[str] = None
                 evaluation("text/bytes/" + codec)
                 count("text_runs")
                 count("binary_text_runs")
+                if codec in ESCAPE_CODECS and not text_main.isascii():
+                    count("escape_codec_text_runs")
                 if rec is not None:
                     rec.see("codecs", "text:" + codec)
                 if r is None:
@@ -829,8 +844,7 @@ def check_case(case: Dict[str, Any], rec: Any = None, only: Optional[str] = None
             if not (eval_xml(label, r[0], r[1], strip, None) and plumbing(label, la, r[1], False)):
                 continue
             # binary sinks with codecs able to encode this very document
-            able = able_codecs(HEADER.sub("", r[0]))
-            for codec in rng.sample(able, min(2, len(able))):
+            for codec in choose_codecs(rng, HEADER.sub("", r[0]), 2):
                 fs = rng.random() < 0.15
                 label = "xml/%s/%s/%s/strip=%d" % ("binaryfile" if fs else "BytesIO", codec, lk, strip)
                 count("file_sink_runs", int(fs))
@@ -838,6 +852,8 @@ def check_case(case: Dict[str, Any], rec: Any = None, only: Optional[str] = None
                 evaluation("xml/bytes/%s/%s/%d" % (codec, lk, strip))
                 count("xml_runs")
                 count("binary_xml_runs")
+                if codec in ESCAPE_CODECS and not r[0].isascii():
+                    count("escape_codec_xml_runs")
                 if rec is not None:
                     rec.see("codecs", "xml:" + codec)
                 if rb is None:
@@ -851,7 +867,7 @@ def check_case(case: Dict[str, Any], rec: Any = None, only: Optional[str] = None
                 except UnicodeError:
                     dec = None
                 if dec is None or HEADER.match(dec) is None:
-                    fails.append(classify_binary_xml(codec, raw, dec))
+                    fails.append(classify_binary_xml(codec, raw, dec, r[0]))
                     continue
                 if not eval_xml(label, dec, pages, strip, codec):
                     # a byte order mark per write shows up as stray U+FEFF character data: name that mechanism
